@@ -1,10 +1,10 @@
-(* EditProofsContent.v -- C11, part 4: add_page_contents on pages whose Contents is "plain" (absent, a reference
-   that directly names a stream, or a direct array of such references -- the complement of the known-finding class
-   C11-content-indirect, for pages that are direct dictionary objects): afterwards the abstract page
-   (Spec/AbstractDoc.v) shows its old content followed by the new one, and every other plain page shows what it
-   showed before. *)
+(* EditProofsContent.v -- C11, part 4: I_content for add_page_contents (the code after the repair of C11-content-indirect) on
+   EVERY page whose content is defined (Spec/AbstractDoc.v: Contents absent, a stream, or an array of streams, each possibly
+   behind references; the page itself possibly behind reference objects): afterwards the abstract page shows its old content
+   followed by the new one, and every other page (another dictionary) whose content is defined shows what it showed before.
+   First: dereferencing in a map that differs from the old one at ONE non-reference object and may hold additional objects. *)
 From LV Require Import Base.Bytes Model.Obj Model.DocQ Model.PageTree Model.Traverse Model.Edit Model.StreamFilt
-  Gen.Consts Spec.RenumberSpec Spec.AbstractDoc Proofs.RenumberProofsMap Proofs.EditProofs.
+  Gen.Consts Spec.RenumberSpec Spec.AbstractDoc Proofs.RenumberProofsMap Proofs.EditProofs Proofs.EditProofsRes.
 
 Lemma deref_fuel_pos : exists k, N.to_nat DEREF_LIMIT = S k.
 Proof. vm_compute. eexists. reflexivity. Qed.
@@ -38,16 +38,152 @@ Proof.
   - destruct (bytes_eqb k' k) eqn:E; cbn [dict_get]; rewrite E; [reflexivity | exact IH].
 Qed.
 
-(* ---------- plain contents ---------- *)
-Definition stream_ref (m : objmap) (x : obj) : Prop :=
-  exists i g sd c, x = ORef i g /\ lookup m (i, g) = Some (OStream sd c).
+(* ---------- dereferencing when one non-reference object is replaced (and objects may be added) ---------- *)
+Definition opt_is (r : option oid) (t : oid) : bool := match r with Some x => oid_eqb x t | None => false end.
 
-Definition plain_contents (m : objmap) (pd : dict) : Prop :=
-  match dict_get pd K_Contents with
-  | None => True
-  | Some (OArr l) => Forall (stream_ref m) l
-  | Some x => stream_ref m x
-  end.
+Lemma opt_is_false r t : r <> Some t -> opt_is r t = false.
+Proof.
+  destruct r as [x|]; [|reflexivity]. intro H. cbn [opt_is]. apply oid_eqb_neq. congruence.
+Qed.
+
+Lemma opt_is_true r t : opt_is r t = true -> r = Some t.
+Proof. destruct r as [x|]; cbn [opt_is]; [|discriminate]. intro H. apply oid_eqb_eq in H. congruence. Qed.
+
+(* every object of m other than t is in m2 unchanged; t holds the non-reference ot in m and the non-reference ot' in m2 *)
+Definition grows_at (m m2 : objmap) (t : oid) (ot ot' : obj) : Prop :=
+  (forall x o, x <> t -> lookup m x = Some o -> lookup m2 x = Some o) /\
+  lookup m t = Some ot /\ lookup m2 t = Some ot' /\ not_ref ot /\ not_ref ot'.
+
+Lemma deref_aux_nonref m f last o : not_ref o -> deref_aux m f last o = Some (last, o).
+Proof. destruct f; destruct o; cbn; tauto || reflexivity. Qed.
+
+Lemma deref_aux_grows m m2 t ot ot' : grows_at m m2 t ot ot' ->
+  forall f last o r y, last <> Some t -> deref_aux m f last o = Some (r, y) ->
+    deref_aux m2 f last o = Some (r, if opt_is r t then ot' else y).
+Proof.
+  intros [Hx [Lt [Lt' [N N']]]]. induction f as [|f IH]; intros last o r y Hl H.
+  - destruct o as [| | | | | | | | |i g]; cbn [deref_aux] in *;
+      try (inversion H; subst; rewrite (opt_is_false _ _ Hl); reflexivity).
+    destruct (lookup m (i, g)); discriminate.
+  - destruct o as [| | | | | | | | |i g]; cbn [deref_aux] in *;
+      try (inversion H; subst; rewrite (opt_is_false _ _ Hl); reflexivity).
+    destruct (lookup m (i, g)) as [o1|] eqn:L; [|discriminate].
+    destruct (oid_eqb (i, g) t) eqn:E.
+    + apply oid_eqb_eq in E. subst t. rewrite Lt in L. inversion L; subst o1.
+      rewrite (deref_aux_nonref m f _ ot N) in H. inversion H; subst.
+      rewrite Lt', (deref_aux_nonref m2 f _ ot' N'). cbn [opt_is]. rewrite oid_eqb_refl. reflexivity.
+    + apply oid_eqb_neq in E. rewrite (Hx _ _ E L). apply IH; [|exact H]. intro Q. inversion Q. congruence.
+Qed.
+
+Lemma dereference_grows m m2 t ot ot' o r y : grows_at m m2 t ot ot' ->
+  dereference m o = Some (r, y) -> dereference m2 o = Some (r, if opt_is r t then ot' else y).
+Proof. intros G H. unfold dereference in *. eapply deref_aux_grows; [exact G | discriminate | exact H]. Qed.
+
+(* where a dereferencing ends is where its result is stored *)
+Lemma dereference_ends m o r y : dereference m o = Some (Some r, y) -> lookup m r = Some y.
+Proof.
+  unfold dereference. intro H. destruct (deref_final _ _ _ _ _ _ H) as [[E _]|E]; [discriminate | exact E].
+Qed.
+
+Lemma grows_update m t ot ot' : lookup m t = Some ot -> not_ref ot -> not_ref ot' -> grows_at m (update m t ot') t ot ot'.
+Proof.
+  intros L N N'. split; [|split; [exact L|split; [|split; assumption]]].
+  - intros x o Hx Lx. rewrite lookup_update. replace (oid_eqb t x) with false; [exact Lx|].
+    symmetry. apply oid_eqb_neq. congruence.
+  - rewrite lookup_update, oid_eqb_refl, L. reflexivity.
+Qed.
+
+Lemma grows_insert_update m nid v t ot ot' :
+  lookup m nid = None -> lookup m t = Some ot -> not_ref ot -> not_ref ot' ->
+  grows_at m (update (insert m nid v) t ot') t ot ot'.
+Proof.
+  intros Ln L N N'.
+  assert (L1 : forall x o, lookup m x = Some o -> lookup (insert m nid v) x = Some o).
+  { intros x o Lx. rewrite lookup_insert. replace (oid_eqb nid x) with false; [exact Lx|].
+    symmetry. apply oid_eqb_neq. intro E. subst x. congruence. }
+  split; [|split; [exact L|split; [|split; assumption]]].
+  - intros x o Hx Lx. rewrite lookup_update. replace (oid_eqb t x) with false; [apply L1; exact Lx|].
+    symmetry. apply oid_eqb_neq. congruence.
+  - rewrite lookup_update, oid_eqb_refl, (L1 _ _ L). reflexivity.
+Qed.
+
+(* get_object / get_object_mut: the object read is the same unless the reading ends at t *)
+Lemma get_object_grows m m2 t ot ot' q o : grows_at m m2 t ot ot' ->
+  get_object m q = Some o ->
+  get_object m2 q = Some (if opt_is (get_object_mut_id m q) t then ot' else o) /\
+  get_object_mut_id m2 q = get_object_mut_id m q /\ get_object_mut_id m q <> None.
+Proof.
+  intros G H. pose proof G as [Hx [Lt [Lt' [N N']]]]. unfold get_object, get_object_mut_id in *.
+  destruct (lookup m q) as [o0|] eqn:L; [|discriminate].
+  destruct (oid_eqb q t) eqn:E.
+  - apply oid_eqb_eq in E. subst q. rewrite Lt in L. inversion L; subst o0.
+    rewrite Lt'. rewrite (dereference_nonref m ot N) in *. rewrite (dereference_nonref m2 ot' N').
+    cbn [option_map snd] in *. cbn [opt_is]. rewrite oid_eqb_refl. repeat split; discriminate.
+  - apply oid_eqb_neq in E. rewrite (Hx _ _ E L).
+    destruct (dereference m o0) as [[r y]|] eqn:D; [|discriminate]. cbn [option_map snd] in H. inversion H; subst y.
+    rewrite (dereference_grows m m2 t ot ot' o0 r o G D). cbn [option_map snd].
+    destruct r as [r0|]; cbn [opt_is].
+    + repeat split; discriminate.
+    + replace (oid_eqb q t) with false by (symmetry; apply oid_eqb_neq; exact E). repeat split; discriminate.
+Qed.
+
+Lemma get_dictionary_target m page pd :
+  get_dictionary m page = Some pd -> exists t, get_object_mut_id m page = Some t /\ lookup m t = Some (ODict pd).
+Proof.
+  unfold get_dictionary. destruct (get_object m page) as [[| | | | | | |pd0| |]|] eqn:G; try discriminate.
+  intro H; inversion H; subst pd0.
+  destruct (get_object_mut_id m page) as [t|] eqn:T.
+  - exists t. split; [reflexivity|]. eapply get_object_mut_agrees; eassumption.
+  - exfalso. unfold get_object, get_object_mut_id in *. destruct (lookup m page) as [o0|]; [|discriminate].
+    destruct (dereference m o0) as [[[r|] y]|]; discriminate.
+Qed.
+
+(* the dictionary read through q is the same when the reading does not end at t, and is the new one when it does *)
+Lemma get_dictionary_grows_other m m2 t ot ot' q qd : grows_at m m2 t ot ot' ->
+  get_dictionary m q = Some qd -> get_object_mut_id m q <> Some t ->
+  get_dictionary m2 q = Some qd /\ get_object_mut_id m2 q = get_object_mut_id m q.
+Proof.
+  intros G H Hn. unfold get_dictionary in *.
+  destruct (get_object m q) as [o|] eqn:Go; [|discriminate].
+  destruct (get_object_grows m m2 t ot ot' q o G Go) as [G2 [T2 _]].
+  rewrite G2, (opt_is_false _ _ Hn). split; [exact H | exact T2].
+Qed.
+
+Lemma get_dictionary_grows_at m m2 t ot td' q qd : grows_at m m2 t ot (ODict td') ->
+  get_dictionary m q = Some qd -> get_object_mut_id m q = Some t ->
+  get_dictionary m2 q = Some td' /\ get_object_mut_id m2 q = Some t.
+Proof.
+  intros G H Ht. unfold get_dictionary in *.
+  destruct (get_object m q) as [o|] eqn:Go; [|discriminate].
+  destruct (get_object_grows m m2 t ot (ODict td') q o G Go) as [G2 [T2 _]].
+  rewrite G2, T2, Ht. cbn [opt_is]. rewrite oid_eqb_refl. split; reflexivity.
+Qed.
+
+(* ---------- dereferencing in a map that only gained objects ---------- *)
+Definition extends (m m1 : objmap) : Prop := forall x o, lookup m x = Some o -> lookup m1 x = Some o.
+
+Lemma deref_aux_extends m m1 : extends m m1 ->
+  forall f last o res, deref_aux m f last o = Some res -> deref_aux m1 f last o = Some res.
+Proof.
+  intro X. induction f as [|f IH]; intros last o res H; destruct o as [| | | | | | | | |i g]; cbn [deref_aux] in *; try exact H.
+  - destruct (lookup m (i, g)); discriminate.
+  - destruct (lookup m (i, g)) as [o1|] eqn:L; [|discriminate]. rewrite (X _ _ L). apply IH. exact H.
+Qed.
+
+Lemma get_object_extends m m1 q o : extends m m1 -> get_object m q = Some o ->
+  get_object m1 q = Some o /\ get_object_mut_id m1 q = get_object_mut_id m q.
+Proof.
+  intros X H. unfold get_object, get_object_mut_id in *. destruct (lookup m q) as [o0|] eqn:L; [|discriminate].
+  rewrite (X _ _ L). unfold dereference in *.
+  destruct (deref_aux m (N.to_nat DEREF_LIMIT) None o0) as [res|] eqn:D; [|discriminate].
+  rewrite (deref_aux_extends m m1 X _ _ _ _ D). split; [exact H | reflexivity].
+Qed.
+
+Lemma extends_insert_fresh m nid v : lookup m nid = None -> extends m (insert m nid v).
+Proof.
+  intros Ln x o Lx. rewrite lookup_insert. replace (oid_eqb nid x) with false; [exact Lx|].
+  symmetry. apply oid_eqb_neq. intro E. subst x. congruence.
+Qed.
 
 Section Content.
   Variable decode : dict -> bytes -> bytes.
@@ -70,115 +206,255 @@ Section Content.
       destruct (concat_streams decode m l2); [rewrite app_assoc|]; reflexivity.
   Qed.
 
-  (* two maps that agree on the streams a plain list names give the same concatenation, and it is defined *)
-  Lemma concat_streams_agree m m' l :
-    Forall (stream_ref m) l ->
-    (forall i g sd c, lookup m (i, g) = Some (OStream sd c) -> lookup m' (i, g) = Some (OStream sd c)) ->
-    concat_streams decode m' l = concat_streams decode m l /\ exists b, concat_streams decode m l = Some b.
-  Proof.
-    intros F A. induction F as [|x l [i [g [sd [c [-> L]]]]] F IH]; cbn [concat_streams].
-    - split; [reflexivity | eexists; reflexivity].
-    - destruct IH as [E [b Eb]]. rewrite (stream_data_ref m i g sd c L), (stream_data_ref m' i g sd c (A _ _ _ _ L)), E, Eb.
-      split; [reflexivity | eexists; reflexivity].
-  Qed.
-
-  (* the abstract content of a direct-dictionary page with plain contents, in any map that agrees on its streams *)
-  Lemma page_content_agree m m' page pd :
-    lookup m page = Some (ODict pd) -> lookup m' page = Some (ODict pd) -> plain_contents m pd ->
-    (forall i g sd c, lookup m (i, g) = Some (OStream sd c) -> lookup m' (i, g) = Some (OStream sd c)) ->
-    page_content decode m' page = page_content decode m page /\ exists b, page_content decode m page = Some b.
-  Proof.
-    intros L L' P A. unfold page_content. rewrite (get_dictionary_direct m page pd L), (get_dictionary_direct m' page pd L').
-    unfold plain_contents in P. destruct (dict_get pd S_Contents) as [x|] eqn:Ec;
-      change S_Contents with K_Contents in Ec; rewrite Ec in P; [|split; [reflexivity | eexists; reflexivity]].
-    destruct x as [| | | | | |l| | |i g]; try (destruct P as [i0 [g0 [sd [c [Ex _]]]]]; discriminate).
-    - rewrite !dereference_nonref by exact I. apply concat_streams_agree; assumption.
-    - destruct P as [i0 [g0 [sd [c [Ex Ls]]]]]. inversion Ex; subst i0 g0.
-      rewrite (dereference_one_hop m i g _ Ls I), (dereference_one_hop m' i g _ (A _ _ _ _ Ls) I).
-      split; [reflexivity | eexists; reflexivity].
-  Qed.
-
   Definition new_dict (c : bytes) : dict := [(K_Length, len_obj c)].
 
-  (* what add_page_contents reads as the current list *)
-  Definition cur_list (pd : dict) : list obj :=
-    match dict_get pd K_Contents with Some (ORef i g) => [ORef i g] | Some (OArr l) => l | _ => [] end.
+  (* ---- case 1: the replaced object t is neither a stream nor an array (a page dictionary gets a new Contents entry):
+     every defined stream, list of streams and page content is what it was ---- *)
+  Section KeepsStreams.
+    Variables (m m2 : objmap) (t : oid) (ot ot' : obj).
+    Hypothesis G : grows_at m m2 t ot ot'.
+    Hypothesis Hs : forall sd c, ot <> OStream sd c.
+    Hypothesis Ha : forall l, ot <> OArr l.
 
-  Lemma cur_list_plain m pd : plain_contents m pd -> Forall (stream_ref m) (cur_list pd).
+    Lemma grows_lookup_t : lookup m t = Some ot.
+    Proof. destruct G as [_ [L _]]. exact L. Qed.
+
+    Lemma dereference_keeps_stream x r sd c :
+      dereference m x = Some (r, OStream sd c) -> dereference m2 x = Some (r, OStream sd c).
+    Proof.
+      intro D. rewrite (dereference_grows m m2 t ot ot' x r _ G D).
+      destruct (opt_is r t) eqn:E; [|reflexivity]. apply opt_is_true in E. subst r.
+      apply dereference_ends in D. rewrite grows_lookup_t in D. inversion D. exfalso. eapply Hs; eassumption.
+    Qed.
+
+    Lemma dereference_keeps_array x r l :
+      dereference m x = Some (r, OArr l) -> dereference m2 x = Some (r, OArr l).
+    Proof.
+      intro D. rewrite (dereference_grows m m2 t ot ot' x r _ G D).
+      destruct (opt_is r t) eqn:E; [|reflexivity]. apply opt_is_true in E. subst r.
+      apply dereference_ends in D. rewrite grows_lookup_t in D. inversion D. exfalso. eapply Ha; eassumption.
+    Qed.
+
+    Lemma stream_data_keeps x a : stream_data decode m x = Some a -> stream_data decode m2 x = Some a.
+    Proof.
+      unfold stream_data. destruct (dereference m x) as [[r [| | | | | | | |sd c|]]|] eqn:D; try discriminate.
+      rewrite (dereference_keeps_stream x r sd c D). auto.
+    Qed.
+
+    Lemma concat_streams_keeps l : forall b, concat_streams decode m l = Some b -> concat_streams decode m2 l = Some b.
+    Proof.
+      induction l as [|x l IH]; intros b H; cbn [concat_streams] in *; [exact H|].
+      destruct (stream_data decode m x) as [a|] eqn:Sx; [|discriminate].
+      destruct (concat_streams decode m l) as [b0|]; [|discriminate].
+      rewrite (stream_data_keeps x a Sx), (IH b0 eq_refl). exact H.
+    Qed.
+
+    (* what the Contents value c shows (the body of page_content) *)
+    Lemma contents_keeps c b :
+      match dereference m c with
+      | Some (_, OStream sd b0) => Some (decode sd b0)
+      | Some (_, OArr l) => concat_streams decode m l
+      | _ => None
+      end = Some b ->
+      match dereference m2 c with
+      | Some (_, OStream sd b0) => Some (decode sd b0)
+      | Some (_, OArr l) => concat_streams decode m2 l
+      | _ => None
+      end = Some b.
+    Proof.
+      destruct (dereference m c) as [[r [| | | | | |l| |sd b0|]]|] eqn:D; try discriminate.
+      - rewrite (dereference_keeps_array c r l D). apply concat_streams_keeps.
+      - rewrite (dereference_keeps_stream c r sd b0 D). auto.
+    Qed.
+
+    Lemma page_content_keeps q b :
+      get_object_mut_id m q <> Some t -> page_content decode m q = Some b -> page_content decode m2 q = Some b.
+    Proof.
+      intros Hq H. unfold page_content in *. destruct (get_dictionary m q) as [qd|] eqn:Gq; [|discriminate].
+      destruct (get_dictionary_grows_other m m2 t ot ot' q qd G Gq Hq) as [-> _].
+      destruct (dict_get qd S_Contents) as [c|]; [|exact H]. apply contents_keeps. exact H.
+    Qed.
+  End KeepsStreams.
+
+  (* ---- case 2: the replaced object is a stream [sid], rewritten to (sd', c'); nothing is added ---- *)
+  Section InPlace.
+    Variables (m m2 : objmap) (sid : oid) (sd0 : dict) (c0 : bytes) (sd' : dict) (c' : bytes).
+    Hypothesis G : grows_at m m2 sid (OStream sd0 c0) (OStream sd' c').
+
+    Lemma inplace_lookup : lookup m sid = Some (OStream sd0 c0).
+    Proof. destruct G as [_ [L _]]. exact L. Qed.
+
+    Lemma leads_is m0 x r y : dereference m0 x = Some (r, y) -> leads_to_stream m0 sid x = opt_is r sid.
+    Proof. intro D. unfold leads_to_stream. rewrite D. destruct r; reflexivity. Qed.
+
+    Lemma stream_data_inplace x a :
+      stream_data decode m x = Some a ->
+      stream_data decode m2 x = Some (if leads_to_stream m sid x then decode sd' c' else a).
+    Proof.
+      unfold stream_data. destruct (dereference m x) as [[r [| | | | | | | |sd c|]]|] eqn:D; try discriminate.
+      intro H. inversion H; subst a.
+      rewrite (dereference_grows m m2 sid _ _ x r _ G D), (leads_is m x r _ D).
+      destruct (opt_is r sid); reflexivity.
+    Qed.
+
+    (* what a list of content items shows when the stream [sid] decodes to [nd] and every other stream is as in [m] *)
+    Fixpoint expect (nd : bytes) (l : list obj) : option bytes :=
+      match l with
+      | [] => Some []
+      | x :: l' =>
+        match (if leads_to_stream m sid x then Some nd else stream_data decode m x), expect nd l' with
+        | Some a, Some b => Some (a ++ b)
+        | _, _ => None
+        end
+      end.
+
+    Lemma expect_unshown nd l : existsb (leads_to_stream m sid) l = false -> expect nd l = concat_streams decode m l.
+    Proof.
+      induction l as [|x l IH]; intro H; cbn [expect concat_streams existsb] in *; [reflexivity|].
+      apply Bool.orb_false_iff in H. destruct H as [H1 H2]. rewrite H1, (IH H2). reflexivity.
+    Qed.
+
+    Lemma concat_streams_inplace l : forall b,
+      concat_streams decode m l = Some b -> concat_streams decode m2 l = expect (decode sd' c') l.
+    Proof.
+      induction l as [|x l IH]; intros b H; cbn [concat_streams expect] in *; [reflexivity|].
+      destruct (stream_data decode m x) as [a|] eqn:Sx; [|discriminate].
+      destruct (concat_streams decode m l) as [b0|]; [|discriminate].
+      rewrite (stream_data_inplace x a Sx), (IH b0 eq_refl).
+      destruct (leads_to_stream m sid x); reflexivity.
+    Qed.
+
+    Lemma get_dictionary_inplace q qd : get_dictionary m q = Some qd -> get_dictionary m2 q = Some qd.
+    Proof.
+      intro H. eapply get_dictionary_grows_other; [exact G | exact H|].
+      intro T. destruct (get_dictionary_target m q qd H) as [t [T' L]]. rewrite T in T'. inversion T'; subst t.
+      rewrite inplace_lookup in L. discriminate.
+    Qed.
+
+    (* a page that does not show the stream keeps its (defined) content *)
+    Lemma page_content_unshown q b :
+      page_shows_stream m sid q = false -> page_content decode m q = Some b -> page_content decode m2 q = Some b.
+    Proof.
+      intros Hs H. unfold page_content, page_shows_stream in *. destruct (get_dictionary m q) as [qd|] eqn:Gq; [|discriminate].
+      rewrite (get_dictionary_inplace q qd Gq). change S_Contents with K_Contents in *.
+      destruct (dict_get qd K_Contents) as [c|]; [|exact H].
+      destruct (dereference m c) as [[r y]|] eqn:D; [|discriminate].
+      rewrite (dereference_grows m m2 sid _ _ c r y G D).
+      destruct y as [| | | | | |l| |sd b0|]; try discriminate.
+      - assert (E : opt_is r sid = false).
+        { destruct (opt_is r sid) eqn:E; [|reflexivity]. apply opt_is_true in E. subst r.
+          apply dereference_ends in D. rewrite inplace_lookup in D. discriminate. }
+        assert (Hs' : existsb (leads_to_stream m sid) l = false) by (destruct r; exact Hs).
+        rewrite E. rewrite (concat_streams_inplace l b H), (expect_unshown _ l Hs'). exact H.
+      - destruct r as [r0|]; cbn [opt_is]; [rewrite Hs|]; exact H.
+    Qed.
+
+    (* a page whose content is an array: every item that leads to the stream shows the new data *)
+    Lemma page_content_inplace_array q qd c r l b :
+      get_dictionary m q = Some qd -> dict_get qd K_Contents = Some c -> dereference m c = Some (r, OArr l) ->
+      page_content decode m q = Some b -> page_content decode m2 q = expect (decode sd' c') l.
+    Proof.
+      intros Gq Ec D H. unfold page_content in *. rewrite Gq in H. rewrite (get_dictionary_inplace q qd Gq).
+      change S_Contents with K_Contents in *. rewrite Ec in *. rewrite D in H.
+      rewrite (dereference_grows m m2 sid _ _ c r _ G D).
+      assert (E : opt_is r sid = false).
+      { destruct (opt_is r sid) eqn:E; [|reflexivity]. apply opt_is_true in E. subst r.
+        apply dereference_ends in D. rewrite inplace_lookup in D. discriminate. }
+      rewrite E. apply (concat_streams_inplace l b H).
+    Qed.
+
+    (* a page that shows exactly this stream shows exactly the new data *)
+    Lemma page_content_single q qd c :
+      get_dictionary m q = Some qd -> dict_get qd K_Contents = Some c -> single_stream m c = Some sid ->
+      page_content decode m2 q = Some (decode sd' c').
+    Proof.
+      intros Gq Ec Hs. unfold page_content. rewrite (get_dictionary_inplace q qd Gq).
+      change S_Contents with K_Contents. rewrite Ec.
+      assert (One : forall x, stream_id_of m x = Some sid -> dereference m2 x = Some (Some sid, OStream sd' c')).
+      { intros x Hx. unfold stream_id_of in Hx.
+        destruct (dereference m x) as [[[r0|] [| | | | | | | |sd b0|]]|] eqn:D; try discriminate.
+        inversion Hx; subst r0. rewrite (dereference_grows m m2 sid _ _ x _ _ G D). cbn [opt_is].
+        rewrite oid_eqb_refl. reflexivity. }
+      unfold single_stream in Hs.
+      destruct (dereference m c) as [[r y]|] eqn:D; [|rewrite (One c Hs); reflexivity].
+      destruct y as [| | | | | |l| | |]; try (rewrite (One c Hs); reflexivity).
+      destruct l as [|x [|x2 l]]; try discriminate.
+      rewrite (dereference_grows m m2 sid _ _ c r _ G D).
+      assert (E : opt_is r sid = false).
+      { destruct (opt_is r sid) eqn:E; [|reflexivity]. apply opt_is_true in E. subst r.
+        apply dereference_ends in D. rewrite inplace_lookup in D. discriminate. }
+      rewrite E. cbn [concat_streams]. unfold stream_data. rewrite (One x Hs), app_nil_r. reflexivity.
+    Qed.
+  End InPlace.
+
+  (* ---- add_object followed by set_page_entry, on a page whose dictionary may be read through reference objects ---- *)
+  Lemma add_then_set d page pd t v c :
+    alloc_ok d -> (d_max_id d < Renumber.U32_MAX)%N ->
+    get_dictionary (d_objects d) page = Some pd -> get_object_mut_id (d_objects d) page = Some t ->
+    lookup (d_objects d) t = Some (ODict pd) ->
+    let nid := ((d_max_id d + 1)%N, 0%N) in
+    let m1 := insert (d_objects d) nid (new_stream c) in
+    let d1 := with_objs (with_max d (d_max_id d + 1)) m1 in
+    let m2 := update m1 t (ODict (dict_set pd K_Contents v)) in
+    add_object d (new_stream c) = Some (d1, nid) /\
+    set_page_entry (d_objects d1) page K_Contents v = Some m2 /\
+    grows_at (d_objects d) m2 t (ODict pd) (ODict (dict_set pd K_Contents v)) /\
+    lookup m2 nid = Some (new_stream c).
   Proof.
-    unfold cur_list, plain_contents. destruct (dict_get pd K_Contents) as [[| | | | | |l| | |i g]|]; intro P; try constructor; try exact P.
-    constructor.
+    intros A Hmax Gp Tp Lt nid m1 d1 m2. set (m := d_objects d) in *.
+    assert (Ln : lookup m nid = None).
+    { apply lookup_none. intro Hx. apply A in Hx. cbn [fst nid] in Hx. lia. }
+    assert (Htn : t <> nid) by (intro E; subst t; congruence).
+    pose proof (extends_insert_fresh m nid (new_stream c) Ln) as X. fold m1 in X.
+    split; [|split; [|split]].
+    - unfold add_object, new_object_id. apply N.ltb_lt in Hmax. rewrite Hmax. reflexivity.
+    - unfold set_page_entry. change (d_objects d1) with m1.
+      assert (Go : get_object m page = Some (ODict pd)).
+      { unfold get_dictionary in Gp. destruct (get_object m page) as [[| | | | | | |pd0| |]|]; try discriminate. congruence. }
+      destruct (get_object_extends m m1 page _ X Go) as [_ T1]. rewrite T1, Tp, (X _ _ Lt). reflexivity.
+    - apply grows_insert_update; try exact I; assumption.
+    - unfold m2. rewrite lookup_update. replace (oid_eqb t nid) with false by (symmetry; apply oid_eqb_neq; exact Htn).
+      unfold m1. rewrite lookup_insert, oid_eqb_refl. reflexivity.
   Qed.
 
-  Lemma page_content_cur m page pd :
-    lookup m page = Some (ODict pd) -> plain_contents m pd ->
-    page_content decode m page = concat_streams decode m (cur_list pd).
-  Proof.
-    intros L P. unfold page_content. rewrite (get_dictionary_direct m page pd L).
-    unfold plain_contents in P. unfold cur_list. change S_Contents with K_Contents.
-    destruct (dict_get pd K_Contents) as [x|]; [|reflexivity].
-    destruct x as [| | | | | |l| | |i g]; try (destruct P as [i0 [g0 [sd [c [Ex _]]]]]; discriminate).
-    - rewrite dereference_nonref by exact I. reflexivity.
-    - destruct P as [i0 [g0 [sd [c [Ex Ls]]]]]. inversion Ex; subst i0 g0.
-      rewrite (dereference_one_hop m i g _ Ls I). cbn [concat_streams].
-      rewrite (stream_data_ref m i g sd c Ls), app_nil_r. reflexivity.
-  Qed.
-
-  Theorem add_page_contents_plain d page pd c :
-    doc_wf d -> alloc_ok d -> (d_max_id d < Renumber.U32_MAX)%N ->
-    lookup (d_objects d) page = Some (ODict pd) -> plain_contents (d_objects d) pd ->
-    exists d' old,
+  (* I_content for add_page_contents: the page shows its old content followed by what the new stream decodes to; every other
+     page (a page whose dictionary is another object) with a defined content shows what it showed; the trailer is unchanged *)
+  Theorem add_page_contents_content d page c old :
+    alloc_ok d -> (d_max_id d < Renumber.U32_MAX)%N ->
+    page_content decode (d_objects d) page = Some old ->
+    exists d',
       add_page_contents d page c = (d', OOk) /\
-      page_content decode (d_objects d) page = Some old /\
       page_content decode (d_objects d') page = Some (old ++ decode (new_dict c) c) /\
-      (forall q qd, q <> page -> lookup (d_objects d) q = Some (ODict qd) -> plain_contents (d_objects d) qd ->
-                    page_content decode (d_objects d') q = page_content decode (d_objects d) q) /\
+      (forall q b, get_object_mut_id (d_objects d) q <> get_object_mut_id (d_objects d) page ->
+                   page_content decode (d_objects d) q = Some b -> page_content decode (d_objects d') q = Some b) /\
       d_trailer d' = d_trailer d.
   Proof.
-    intros W A Hmax L P. remember (d_objects d) as m eqn:Em.
-    set (nid := ((d_max_id d + 1)%N, 0%N)).
-    assert (Hfresh : forall x, has_obj m x -> x <> nid).
-    { intros x Hx E. subst x m. apply A in Hx. cbn [fst nid] in Hx. lia. }
-    set (m1 := insert m nid (new_stream c)).
-    set (d1 := with_objs (with_max d (d_max_id d + 1)) m1).
-    assert (Hadd : add_object d (new_stream c) = Some (d1, nid)).
-    { unfold add_object, new_object_id. apply N.ltb_lt in Hmax. rewrite Hmax. unfold d1, m1. rewrite Em. reflexivity. }
-    assert (L1 : forall x, x <> nid -> lookup m1 x = lookup m x).
-    { intros x Hx. unfold m1. rewrite lookup_insert. replace (oid_eqb nid x) with false; [reflexivity|].
-      symmetry. apply oid_eqb_neq. congruence. }
-    assert (Hpn : page <> nid) by (apply Hfresh; eapply lookup_has; exact L).
-    set (newc := OArr (cur_list pd ++ [ORef (fst nid) (snd nid)])).
-    set (pd' := dict_set pd K_Contents newc).
-    set (m2 := update m1 page (ODict pd')).
-    assert (Lp1 : lookup m1 page = Some (ODict pd)) by (rewrite L1 by exact Hpn; exact L).
-    assert (Lp2 : lookup m2 page = Some (ODict pd')).
-    { unfold m2. rewrite lookup_update, oid_eqb_refl, Lp1. reflexivity. }
-    assert (L2 : forall x, x <> page -> x <> nid -> lookup m2 x = lookup m x).
-    { intros x Hx Hn. unfold m2. rewrite lookup_update. replace (oid_eqb page x) with false; [apply L1; exact Hn|].
-      symmetry. apply oid_eqb_neq. congruence. }
-    assert (Ls : forall i g sd c0, lookup m (i, g) = Some (OStream sd c0) -> lookup m2 (i, g) = Some (OStream sd c0)).
-    { intros i g sd c0 H. rewrite L2; [exact H| |].
-      - intro E. rewrite E in H. congruence.
-      - apply Hfresh. eapply lookup_has; exact H. }
-    assert (Ln : lookup m2 nid = Some (new_stream c)).
-    { unfold m2. rewrite lookup_update. replace (oid_eqb page nid) with false by (symmetry; apply oid_eqb_neq; exact Hpn).
-      unfold m1. rewrite lookup_insert, oid_eqb_refl. reflexivity. }
-    pose proof (cur_list_plain m pd P) as Hcur.
-    destruct (concat_streams_agree m m2 (cur_list pd) Hcur Ls) as [Ecur [old Eold]].
-    exists (with_objs d1 m2), old. split; [|split; [|split; [|split]]].
-    - unfold add_page_contents. rewrite <- Em. rewrite (get_dictionary_direct m page pd L).
-      fold (cur_list pd). rewrite Hadd. unfold set_page_entry.
-      change (d_objects d1) with m1. rewrite (get_object_mut_id_direct m1 page pd Lp1), Lp1. reflexivity.
-    - rewrite (page_content_cur m page pd L P). exact Eold.
-    - change (d_objects (with_objs d1 m2)) with m2. unfold page_content.
-      rewrite (get_dictionary_direct m2 page pd' Lp2). change S_Contents with K_Contents.
-      unfold pd'. rewrite dict_get_set_same. unfold newc. rewrite dereference_nonref by exact I.
-      rewrite concat_streams_app, Ecur, Eold. cbn [concat_streams].
-      replace (ORef (fst nid) (snd nid)) with (ORef (d_max_id d + 1) 0) by reflexivity.
+    intros A Hmax H. set (m := d_objects d) in *.
+    unfold page_content in H. destruct (get_dictionary m page) as [pd|] eqn:Gp; [|discriminate].
+    destruct (get_dictionary_target m page pd Gp) as [t [Tp Lt]].
+    set (v := OArr (current_content_list m pd ++ [ORef (d_max_id d + 1) 0])).
+    destruct (add_then_set d page pd t v c A Hmax Gp Tp Lt) as [Ha [Hs [G Ln]]].
+    cbv zeta in Ha, Hs, G, Ln. fold m in Ha, Hs, G, Ln.
+    set (m2 := update (insert m ((d_max_id d + 1)%N, 0%N) (new_stream c)) t (ODict (dict_set pd K_Contents v))) in *.
+    assert (Ns : forall sd c1, ODict pd <> OStream sd c1) by (intros; discriminate).
+    assert (Na : forall l, ODict pd <> OArr l) by (intros; discriminate).
+    eexists. split; [|split; [|split]].
+    - unfold add_page_contents. fold m. rewrite Gp. cbv zeta. rewrite Ha. cbn [fst snd]. fold v. rewrite Hs. reflexivity.
+    - cbn [d_objects with_objs]. unfold page_content.
+      destruct (get_dictionary_grows_at m m2 t _ _ page pd G Gp Tp) as [-> _].
+      change S_Contents with K_Contents in *. rewrite dict_get_set_same. unfold v at 1.
+      rewrite dereference_nonref by exact I. rewrite concat_streams_app.
+      assert (Ec : concat_streams decode m2 (current_content_list m pd) = Some old).
+      { unfold current_content_list. destruct (dict_get pd K_Contents) as [c0|]; [|exact H].
+        destruct (dereference m c0) as [[r [| | | | | |l| |sd b0|]]|] eqn:D; try discriminate.
+        - apply (concat_streams_keeps m m2 t _ _ G Ns). exact H.
+        - cbn [concat_streams].
+          rewrite (stream_data_keeps m m2 t _ _ G Ns c0 (decode sd b0)) by (unfold stream_data; rewrite D; reflexivity).
+          rewrite app_nil_r. exact H. }
+      rewrite Ec. cbn [concat_streams].
       rewrite (stream_data_ref m2 (d_max_id d + 1)%N 0%N (new_dict c) c Ln), app_nil_r. reflexivity.
-    - intros q qd Hq Lq Pq. change (d_objects (with_objs d1 m2)) with m2.
-      assert (Hqn : q <> nid) by (apply Hfresh; eapply lookup_has; exact Lq).
-      apply (page_content_agree m m2 q qd Lq); [rewrite L2 by assumption; exact Lq | exact Pq | exact Ls].
+    - intros q b Hq Hb. cbn [d_objects with_objs]. apply (page_content_keeps m m2 t _ _ G Ns Na); [|exact Hb].
+      fold m in Hq. rewrite Tp in Hq. exact Hq.
     - reflexivity.
   Qed.
 End Content.
